@@ -54,7 +54,9 @@ let pcr_step a =
       int_of_z (sch_next_units_after (q_of_frac now 1) (ty = 0) (q_of_frac !pcr_ci4 4) (q_of_frac !pcr_ri4 4) (z_of_int !pcr_off))
     else !pcr_ci4 * 2500 in
   (res, ty, units)
-let op_sch_cnew a = pcr_new a; pcr_running := false; pcr_inflight := None
+let pcr_remote = ref 0   (* 0 local, 1 command_endpoint not connected, 2 connected *)
+let op_sch_cnew a = pcr_new a; pcr_running := false; pcr_inflight := None;
+  pcr_remote := (if num a "remote" 0 <> 0 then (if num a "conn" 0 <> 0 then 2 else 1) else 0)
 let op_sch_cr a =
   let (res, ty, units) = pcr_step a in
   if res = 0 then emit (Printf.sprintf "pcr res=%d ty=%d next=%d" res ty units)
@@ -63,6 +65,17 @@ let op_sch_exec a =
   let now = num a "now" 2000000000 in
   (* before_check = now; early UpdateNextCheck; optionally a passive result lands in the window before the test-and-set *)
   if has a "race" then ignore (pcr_result (now + 1) (now + 1) (num a "race" 0));
+  if !pcr_remote <> 0 && not !pcr_running then begin
+    (* command_endpoint branch (SchATaskRemote): nothing runs here; connected: next_check = now + command timeout (60) + 30;
+       not connected (outside the cold-start window): UNKNOWN "not connected" goes through ProcessCheckResult; either way
+       m_CheckRunning is released before ExecuteCheck returns *)
+    if !pcr_remote = 2 then emit "exec remote conn=1 next=900000"
+    else begin
+      let (res, ty) = pcr_result now now 3 in
+      let units = int_of_z (sch_next_units_after (q_of_frac now 1) (ty = 0) (q_of_frac !pcr_ci4 4) (q_of_frac !pcr_ri4 4) (z_of_int !pcr_off)) in
+      emit (Printf.sprintf "exec remote conn=0 got=%d ty=%d next=%d" (if res = 0 then 1 else 0) ty units)
+    end
+  end else
   if !pcr_running then emit "exec started=0"
   else begin pcr_running := true; pcr_inflight := Some now; emit "exec started=1" end
 let op_sch_finish a =
@@ -391,9 +404,10 @@ let oracle_run (a : args) trace =
        same head of the next-check index (same object, same key) stays due with a free slot over more than delta.
        Whatever else delays a check - slots taken, earlier-due checkables, a saturated pool, a loaded machine - is not
        a violation.  The only legitimate wait in that situation is the scheduler's own 0.5 s condition-variable timeout
-       (a finishing task whose checkable was removed from pending does not notify), hence delta = 3 s + 10 * the largest
-       oversleep observed in this run.  W records (gaps between starts) are statistics only. *)
-    let delta = 3_000_000 + 10 * hiccup in
+       (a finishing task whose checkable was removed from pending does not notify) plus the time the scheduler thread needs
+       to get the CPU, hence delta = 2 s (four such timeouts) + 10 * the largest oversleep observed in this run.
+       W records (gaps between starts) are statistics only. *)
+    let delta = 2_000_000 + 10 * hiccup in
     let cur = ref None in
     List.iter (fun (t, _, hid, hkey, pc) ->
       if hid >= 0 && hkey < t - 1000 && pc < !maxc then begin
@@ -405,8 +419,11 @@ let oracle_run (a : args) trace =
       end else cur := None) (List.rev !snaps);
     (* forced requests: an unserved forced request is a violation only if the scheduler demonstrably served LATER-DUE work
        while the forced checkable sat in idle: a snapshot (atomic, under m_Mutex) that shows c in idle and a head of the
-       next-check index with a key beyond anything c's key can be (request time + Imax + dmax + margin) - impossible for
-       a scheduler that keys c by its next_check unless c was skipped and re-keyed. *)
+       next-check index with a key beyond anything c's key can be - impossible for a scheduler that keys c by its next_check
+       unless c was skipped and re-keyed.  The bound compares KEYS, not clock readings: after the request c's key is the
+       request time, or, when the request fell into a running check, the end of that run + one interval
+       (<= request + dmax + Imax); the only real-time quantity in it is the duration of that run, which a loaded machine
+       stretches (0.1 s + 10 * the largest oversleep observed). *)
     let snaps_fwd = List.rev !snaps in
     List.iter (function
       | c :: t :: until :: _ :: t2 :: imax :: _ ->
@@ -422,7 +439,7 @@ let oracle_run (a : args) trace =
         let running = List.exists (fun (c0, t0, _) ->
           c0 = c && t0 <= until && (match Hashtbl.find_opt entry_idx (c0, t0) with Some i -> i > ridx | None -> false)) !returned in
         if not (started || running) then begin
-          let kc_max = t2 + imax + !dmax + 1_000_000 + 10 * hiccup in
+          let kc_max = t2 + imax + !dmax + 100_000 + 10 * hiccup in
           let cs = string_of_int c in
           let hits = List.filter (fun (ts, idle, hid, hkey, _) ->
             ts > t2 && ts < until && hid >= 0 && hid <> c && hkey > kc_max && List.mem cs (String.split_on_char ',' idle)) snaps_fwd in
@@ -474,6 +491,17 @@ let oracle_c04 script trace =
          | l :: rest ->
            execs := rest;
            if has a "race" then inflight := false;
+           if String.length l > 12 && String.sub l 0 12 = "exec remote " then begin
+             (* C04_remote_releases_on_return on the implementation: every ExecuteCheck of a checkable with a command endpoint
+                gets as far as the remote branch - next_check = now + timeout + 30 (connected) / the "not connected" result
+                arrives (not connected); a call that came back from the guard shows neither *)
+             inflight := false;
+             let t = toks_of l in
+             (match tok_val t "conn", tok_val t "next", tok_val t "got" with
+              | Some "1", Some "900000", _ -> ()
+              | Some "0", _, Some "1" -> ()
+              | _ -> fail (Printf.sprintf "single-flight wedged: (%s) remote execution did not take place: [%s] (m_CheckRunning left set by the previous remote ExecuteCheck)" line l))
+           end else
            (match tok_val (toks_of l) "started" with
             | Some "1" ->
               (* C04_single_flight / C04_flag_until_result on the implementation: the command keeps its result (asynchronous);
